@@ -219,7 +219,7 @@ func frontHeaders(q frontReq, h http.Header) {
 	case "0", "1", "infinity":
 		h.Set("Depth", q.depth)
 	case "bad":
-		h.Set("Depth", "2")
+		h.Set("Depth", badDepths[(q.level*3+len(q.method)+len(q.body)+len(q.ctype))%len(badDepths)])
 	}
 	switch q.ow {
 	case "T", "F":
@@ -249,6 +249,61 @@ func isMutating(call string) bool {
 		}
 	}
 	return false
+}
+
+// the names of the backend calls a request leads to, in order, when its path is spelled `p`
+func frontCallNames(q frontReq, body, p string) (names []string) {
+	defer func() { recover() }()
+	req := httptest.NewRequest("GET", "http://example.com/", strings.NewReader(body))
+	req.URL.Path = p
+	req.Method = q.method
+	frontHeaders(q, req.Header)
+	rec := httptest.NewRecorder()
+	var calls []string
+	px := q.prefix
+	switch q.srv {
+	case "cal":
+		b := &calBackend{principal: px + "/u/", homeSet: px + "/u/cal/",
+			calendars: []caldav.Calendar{{Path: px + "/u/cal/a/", Name: "A"}},
+			objects:   map[string][]caldav.CalendarObject{px + "/u/cal/a/": {{Path: px + "/u/cal/a/x.ics", ETag: "e1", Data: simpleCal("u1", "s")}}}}
+		(&caldav.Handler{Backend: b, Prefix: q.handlerPrefix()}).ServeHTTP(rec, req)
+		calls = b.log.take()
+	case "card":
+		b := &cardBackend{principal: px + "/u/", homeSet: px + "/u/ab/",
+			books:   []carddav.AddressBook{{Path: px + "/u/ab/a/", Name: "A"}},
+			objects: map[string][]carddav.AddressObject{px + "/u/ab/a/": {{Path: px + "/u/ab/a/x.vcf", ETag: "e1", Card: simpleCard("A B")}}}}
+		(&carddav.Handler{Backend: b, Prefix: q.handlerPrefix()}).ServeHTTP(rec, req)
+		calls = b.log.take()
+	}
+	for _, c := range calls {
+		if f := strings.Fields(c); len(f) > 0 && f[0] != "NilObject" {
+			names = append(names, f[0])
+		}
+	}
+	return names
+}
+
+// The level of a path is its depth below the prefix, with or without a trailing slash: the backend operation a request
+// starts with must not depend on that slash (what the backend then answers for the path as spelled is its own affair).
+func slashDependent(q frontReq, body string) bool {
+	// (at collection and object level, where the operation is handed the request path; above, what follows the level
+	// decision depends on whether the path IS the current user's principal or home set)
+	if q.srv == "prin" || q.level < 3 {
+		return false
+	}
+	p := frontPath(q)
+	alt := p + "/"
+	if strings.HasSuffix(p, "/") {
+		alt = strings.TrimSuffix(p, "/")
+	}
+	a, b := frontCallNames(q, body, p), frontCallNames(q, body, alt)
+	first := func(l []string) string {
+		if len(l) == 0 {
+			return "-"
+		}
+		return l[0]
+	}
+	return first(a) != first(b)
 }
 
 func runFront(q frontReq, body string) string {
@@ -305,6 +360,9 @@ func runFront(q frontReq, body string) string {
 		}
 		if altered {
 			return fmt.Sprintf("%d %s altered-path", res.StatusCode, b01(mutated))
+		}
+		if slashDependent(q, body) {
+			return fmt.Sprintf("%d %s slash-dependent", res.StatusCode, b01(mutated))
 		}
 		return fmt.Sprintf("%d %s", res.StatusCode, b01(mutated))
 	})
